@@ -22,11 +22,13 @@ META = {
                    "faces; the face and node index maps are compared with the parent topology",
     "assumptions": ["floats as exact reals", f"2x2 Cartesian / 2x2 structured triangle grid, 1-2 nodes displaced by symbolic "
                     f"(dx, dy) in [-{PERT}, {PERT}]^2", "cell subsets: all subsets of the 4 Cartesian cells, sampled subsets "
-                    "of the 8 triangles; `sort` True and False"],
+                    "of the 8 triangles; cell lists in ascending and in arbitrary order, each with `sort` True and False"],
     "stubs": ["np.sqrt(x): |t| when x is syntactically t*t, otherwise fresh r >= 0 with r*r == x"],
     "outside": ["extraction from faces (faces=True: lower-dimensional grids embedded in the plane)",
-                "partition_structured / partition_coordinates / partition_metis / overlap / grid_is_connected: their inputs "
-                "and outputs are concrete integer arrays (enumeration, nothing for a solver to decide)", "3-d grids"],
+                "partition_coordinates / partition_metis / overlap / grid_is_connected: their inputs and outputs are "
+                "concrete integer arrays (nothing for a solver to decide); partition_structured is covered by plain "
+                "ENUMERATION of fine / coarse dimensions (2-d up to 7x5, four 3-d cases), reported as such",
+                "3-d grids for the extraction part"],
 }
 
 
@@ -43,11 +45,19 @@ def shards(tier, seed):
         for cs in subsets:
             for ns in nodesets:
                 order = list(cs)
-                sort = True
-                if len(cs) > 1 and rnd.random() < 0.4:
-                    rnd.shuffle(order)
-                    sort = False
+                sort = rnd.random() < 0.6
+                if len(cs) > 1 and rnd.random() < 0.6:
+                    rnd.shuffle(order)          # unsorted input, with sort=True as well as sort=False
                 out.append({"kind": kind, "cells": order, "sort": sort, "nodes": ns})
+    # partitioners: concrete enumeration (no symbolic input exists for them), kept here because the
+    # property names them; every cell must get exactly one part index within range
+    dims2 = [(nx, ny) for nx in range(2, 8) for ny in range(2, 6)]
+    for fd in dims2:
+        for cd in [(cx, cy) for cx in range(1, fd[0] + 1) for cy in range(1, fd[1] + 1)]:
+            if tier != "quick" or (fd[0] * 7 + fd[1] * 3 + cd[0] * 5 + cd[1]) % 4 == 0:
+                out.append({"kind": "partition", "fine": list(fd), "coarse": list(cd)})
+    for fd, cd in (((5, 4, 7), (2, 3, 3)), ((3, 3, 3), (2, 2, 2)), ((4, 5, 3), (3, 2, 2)), ((6, 2, 5), (4, 1, 2))):
+        out.append({"kind": "partition", "fine": list(fd), "coarse": list(cd)})
     k = 8 if tier == "quick" else 16
     return [{"cases": out[i::k]} for i in range(k)]
 
@@ -70,9 +80,49 @@ def _eqv(a, b):
     return z3.And([lift(x) == lift(y) for x, y in zip(a, b)]) if a else z3.BoolVal(True)
 
 
+def _partition_problems(c):
+    import porepy as pp
+
+    g = pp.CartGrid(c["fine"])
+    part = pp.partition.partition_structured(g, coarse_dims=np.array(c["coarse"]))
+    npart = int(np.prod(c["coarse"]))
+    problems = []
+    if np.shape(part) != (g.num_cells,):
+        problems.append(f"shape {np.shape(part)}")
+    elif part.min() < 0 or part.max() >= npart:
+        problems.append(f"part indices {sorted(set(part.tolist()))} outside range(0, {npart})")
+    elif np.unique(part).size != npart:
+        problems.append(f"only {np.unique(part).size} of {npart} parts used")
+    else:
+        # parts are boxes: the part index factorises over the coordinate directions, monotonically
+        idx = np.unravel_index(np.arange(g.num_cells), c["fine"], order="F")
+        pidx = np.unravel_index(part, c["coarse"], order="F")
+        for d in range(len(c["fine"])):
+            m = {}
+            for i, p in zip(idx[d].tolist(), pidx[d].tolist()):
+                if m.setdefault(i, p) != p:
+                    problems.append(f"direction {d}: fine index {i} in two coarse slabs")
+                    break
+            vals = [m[i] for i in sorted(m)]
+            if vals != sorted(vals):
+                problems.append(f"direction {d}: coarse index not monotone {vals}")
+    return problems
+
+
+def h_partition(ctx, c):
+    case = lambda conc: {"case": c}  # noqa: E731
+    probs = _partition_problems(c)
+    ctx.check("partition_structured: every cell in exactly one part within range, parts are boxes", not probs, case)
+    ctx.reach("end")
+    if ctx.rep.paths % 40 == 0:
+        ctx.sample({"case": c})
+
+
 def harness(ctx, c):
     import porepy as pp
 
+    if c["kind"] == "partition":
+        return h_partition(ctx, c)
     g = _grid(c["kind"])
     ref = g.nodes.copy()
     N = np.empty(ref.shape, dtype=object)
@@ -163,6 +213,11 @@ def replay_case(case):
     import porepy as pp
 
     c = case["case"]
+    if c["kind"] == "partition":
+        probs = _partition_problems(c)
+        if probs:
+            return True, f"partition_structured(CartGrid({c['fine']}), coarse_dims={c['coarse']}): {probs}"
+        return False, "partition"
     g = _grid(c["kind"])
     for i, dsp in zip(c["nodes"], case["disp"]):
         g.nodes[0, i] += dsp[0]
